@@ -33,7 +33,7 @@ def inject(fmt, lines, cls, i=0):
         lines[0] = "x" + lines[0][1:]
     elif cls == "no-plus":
         lines[2] = "x" + lines[2][1:]
-    elif cls == "non-numeric":
+    elif cls in ("non-numeric", "non-numeric-after-signed"):
         cols = lines[0].split("\t")
         j = {"vcf": 1, "sam": 3, "gtf": 3}.get(fmt, 1)
         cols[j] = "x" + cols[j][1:] if len(cols[j]) > 1 or True else cols[j]
@@ -43,6 +43,8 @@ def inject(fmt, lines, cls, i=0):
         lines[0] = lines[0][:k] + "x" + lines[0][k + 1:]
     elif cls == "extra-column":
         lines[0] = lines[0] + "\tx"
+    elif cls == "double-columns":
+        lines[0] = lines[0] + "\t" + lines[0]          # two records joined by a tab instead of a newline
     elif cls == "bad-symbol":
         cols = lines[0].split("\t")
         cols[5] = "?"
@@ -66,6 +68,11 @@ def build(fmt, specs, bad, cls, crlf, finalnl):
         lines, exp = f["rec"](i, tuple(s) if isinstance(s, (list, tuple)) else s)
         if i + 1 == bad:
             lines = inject(fmt, lines, cls, i)
+        elif cls == "non-numeric-after-signed" and i + 1 < bad:
+            # well-formed rows before the offending one spell their start with an explicit '+' (same value)
+            cols = lines[0].split("\t")
+            cols[1] = "+" + cols[1]
+            lines = ["\t".join(cols)] + lines[1:]
         body.append("".join(l + nl for l in lines))
         rows.append(exp)
         elines.append(len(lines))
@@ -169,9 +176,9 @@ def check_vector(v):
 
 
 # ------------------------------------------------------------------------------------------------ binding B
-BSETS = [("bed6", ["bad-symbol", "non-numeric", "non-numeric-score", "column-count", "extra-column"]),
+BSETS = [("bed6", ["bad-symbol", "non-numeric", "non-numeric-after-signed", "non-numeric-score", "column-count", "extra-column", "double-columns"]),
          ("narrowpeak", ["non-numeric-float", "bad-symbol"]),
-         ("vcf", ["non-numeric"]), ("bedgraph", ["non-numeric"]), ("bed3", ["non-numeric", "column-count", "extra-column"]),
+         ("vcf", ["non-numeric"]), ("bedgraph", ["non-numeric", "non-numeric-after-signed"]), ("bed3", ["non-numeric", "column-count", "extra-column", "double-columns"]),
          ("fastq", ["no-marker", "no-plus"]), ("fasta2", ["no-marker"])]
 
 
@@ -192,7 +199,7 @@ def _jobs(ctx, quick):
         fam = formats.FORMATS[fmt]["family"]
         for cls in classes:
             # 5 records: a first line with one column too many still lets the fields divide evenly among the lines (4+3+3+3+3)
-            for n in ((2, 3, 4, 5) if cls in ("column-count", "extra-column") else (2, 3, 4)) if quick else (2, 3, 4, 5):
+            for n in ((2, 3, 4, 5) if cls in ("column-count", "extra-column", "double-columns") else (2, 3, 4)) if quick else (2, 3, 4, 5):
                 specs = [SHAPES[fam][(i + n) % len(SHAPES[fam])] for i in range(n)] if exact else [(i + n) % 3 for i in range(n)]
                 if fmt == "bed3":
                     specs = [[5]] * n
